@@ -47,8 +47,9 @@ type tokDesc struct {
 	PKI      string `json:"tsa"`          // which in-harness TSA issues it
 	BadSig   bool   `json:"corrupt_sig"`  // CMS signature damaged
 	RevErr   bool   `json:"rev_error"`    // timestamping revocation validator errors
-	Rev      []int  `json:"rev_vector"`   // its result vector otherwise (nil = all OK)
+	Rev      []int  `json:"rev_vector"`   // its result vector otherwise (nil = all OK); 5 = a nil entry
 	RevShort int    `json:"rev_shorter"`  // drop this many results from the end
+	RevLong  int    `json:"rev_longer"`   // append this many extra (OK) results: more results than TSA certificates
 	facts    string // Gallina term of the oracle facts
 	Facts    string `json:"oracle_facts"`
 }
@@ -357,7 +358,7 @@ func askTSA(token, sig []byte, roots []*x509.Certificate) tsaFacts {
 	return f
 }
 
-var c06ResNames = []string{"ROK", "RNonRevokable", "RUnknown", "RRevoked", "ROther"}
+var c06ResNames = []string{"ROK", "RNonRevokable", "RUnknown", "RRevoked", "ROther", "RNil"}
 
 func c06Result(k int) revresult.Result {
 	switch k {
@@ -418,6 +419,12 @@ func classify(msg string, chain, tsaChain []string) (string, string) {
 		return at("WTsBefore", chain)
 	case strings.HasPrefix(msg, "timestamp can be after certificate"):
 		return at("WTsAfter", chain)
+	case strings.HasPrefix(msg, "failed to check timestamping certificate chain revocation with error: revocation validator returned no result for certificate #"):
+		var k int64
+		fmt.Sscanf(strings.TrimPrefix(msg, "failed to check timestamping certificate chain revocation with error: revocation validator returned no result for certificate #"), "%d", &k)
+		return CApp("WRevNil", CN(k-1)), fmt.Sprintf("WRevNil %d", k-1)
+	case strings.HasPrefix(msg, "failed to check timestamping certificate chain revocation with error: revocation validator returned "):
+		return "WRevCount", "WRevCount"
 	case strings.HasPrefix(msg, "failed to check timestamping certificate chain revocation"):
 		return "WRevErr", "WRevErr"
 	case strings.HasPrefix(msg, "timestamping certificate with subject") && strings.HasSuffix(msg, "is revoked"):
@@ -433,6 +440,7 @@ func classify(msg string, chain, tsaChain []string) (string, string) {
 type tsRev struct {
 	vec     []int
 	short   int
+	long    int
 	err     error
 	calls   [][]*x509.Certificate
 	timeSet bool
@@ -449,6 +457,9 @@ func (r *tsRev) vector(n int) []int {
 	if r.short > 0 && r.short <= len(vec) {
 		vec = vec[:len(vec)-r.short]
 	}
+	for i := 0; i < r.long; i++ {
+		vec = append(vec, 0)
+	}
 	return vec
 }
 
@@ -462,6 +473,10 @@ func (r *tsRev) ValidateContext(ctx context.Context, o revocation.ValidateContex
 	}
 	var out []*revresult.CertRevocationResult
 	for _, k := range r.vector(len(o.CertChain)) {
+		if k == 5 { // a nil entry
+			out = append(out, nil)
+			continue
+		}
 		out = append(out, &revresult.CertRevocationResult{Result: c06Result(k)})
 	}
 	return out, nil
@@ -481,7 +496,7 @@ func runC06(a *Args) error {
 	rng := NewRng(a.Seed)
 	prelude := "From NV Require Import Base C06_Model.\nOpen Scope string_scope.\n"
 	w := NewCaseWriter(a, "C06", prelude, "case", "run")
-	w.Rule = "signing chains of 1..4 certificates minted per case with one validity window per certificate, signing time and expiry placed hours before / after the moment of verification, both schemes and envelope formats, policies whose trustStores list none / one / several / duplicated / empty / failing tsa stores in varying positions x verifyTimestamp {unset, always, afterCertExpiry} x actions of expiry and authenticTimestamp {enforce, log}; countersignatures from an in-harness RFC 3161 TSA: absent, unparsable, wrong content type, bad TSTInfo, over another message / wrong version / unknown hash, from an untrusted root, with a damaged signature, from TSA certificates that are expired at genTime / lack the critical timeStamping EKU / are mis-purposed / chain to a non-self-signed anchor, with genTime +- accuracy inside, on the edge of and outside each certificate window, and every revocation verdict of the timestamping validator. Families: each rule of the property violated by its own edit of an otherwise valid case (the edited certificate at every chain position, for each of the three clocks: now, authentic signing time, timestamp); windows nested leaf-innermost and root-innermost with the clock in every gap; the odd tsa store and the scheme's own store at every position of the trustStores list; the trust anchor held by the store at root / middle / leaf; zero-length vs absent countersignature; histories (ONE verifier instance, 5-6 calls whose expected verdict changes, the tsa store content changing between calls, a genuine token replayed on another envelope); plus a random mixture. non-trivial = some validation does not simply pass on an all-valid input (a failure, an expired-now chain saved by the timestamp or by the signing time, a boundary, a non-default policy); distinct = distinct (windows, times, stores, option, actions, scheme, format, token description) tuples"
+	w.Rule = "signing chains of 1..4 certificates minted per case with one validity window per certificate, signing time and expiry placed hours before / after the moment of verification, both schemes and envelope formats, policies whose trustStores list none / one / several / duplicated / empty / failing tsa stores in varying positions x verifyTimestamp {unset, always, afterCertExpiry} x actions of expiry and authenticTimestamp {enforce, log}; countersignatures from an in-harness RFC 3161 TSA: absent, unparsable, wrong content type, bad TSTInfo, over another message / wrong version / unknown hash, from an untrusted root, with a damaged signature, from TSA certificates that are expired at genTime / lack the critical timeStamping EKU / are mis-purposed / chain to a non-self-signed anchor, with genTime +- accuracy inside, on the edge of and outside each certificate window, and every revocation verdict of the timestamping validator, including answers that do not hold one result per TSA certificate (shorter - also cutting off a revoked result -, longer, a nil entry at every position alone and next to other verdicts). Families: each rule of the property violated by its own edit of an otherwise valid case (the edited certificate at every chain position, for each of the three clocks: now, authentic signing time, timestamp); windows nested leaf-innermost and root-innermost with the clock in every gap; the odd tsa store and the scheme's own store at every position of the trustStores list; the trust anchor held by the store at root / middle / leaf; zero-length vs absent countersignature; histories (ONE verifier instance, 5-6 calls whose expected verdict changes, the tsa store content changing between calls, a genuine token replayed on another envelope); plus a random mixture. non-trivial = some validation does not simply pass on an all-valid input (a failure, an expired-now chain saved by the timestamp or by the signing time, a boundary, a non-default policy); distinct = distinct (windows, times, stores, option, actions, scheme, format, token description) tuples"
 	w.Assumptions = []string{
 		"the implementation reads the wall clock: every time compared with 'now' is at least one hour away from it, so the equality boundaries now = expiry / notBefore / notAfter are proved on the model only; boundaries that do not involve 'now' (signing time or timestamp range equal to a certificate bound) are driven on the code",
 		"oracle facts about the countersignature (parse, TSTInfo, imprint, genTime/accuracy, chain under the tsa stores' certificates at genTime, timestamping-certificate rules) are asked from tspclient-go, crypto/x509 and notation-core-go on the very bytes the verifier receives",
@@ -663,7 +678,7 @@ func runC06(a *Args) error {
 			if c.sess != nil {
 				rv = c.sess.rv
 			}
-			rv.vec, rv.short, rv.err, rv.calls, rv.timeSet = c.Tok.Rev, c.Tok.RevShort, nil, nil, false
+			rv.vec, rv.short, rv.long, rv.err, rv.calls, rv.timeSet = c.Tok.Rev, c.Tok.RevShort, c.Tok.RevLong, nil, nil, false
 			var revTerm string
 			if c.Tok.RevErr {
 				rv.err = errors.New("mock timestamping revocation failure")
@@ -810,7 +825,7 @@ func runC06(a *Args) error {
 				acc = int64(facts.acc / time.Second)
 			}
 			tokTerm := CApp("mk_token", CBool(facts.present), CBool(facts.parses), CBool(facts.info), CBool(facts.imprint),
-				CZ(gen), CZ(acc), CBool(facts.verify), CBool(facts.rules), revTerm)
+				CZ(gen), CZ(acc), CBool(facts.verify), CBool(facts.rules), CN(int64(len(facts.chain))), revTerm)
 			c.Tok.Facts = fmt.Sprintf("present=%v parses=%v info=%v imprint=%v gen=%ds acc=%ds verify=%v rules=%v tsa_chain=%d rev=%s",
 				facts.present, facts.parses, facts.info, facts.imprint, gen, acc, facts.verify, facts.rules, len(facts.chain), revTerm)
 			optTerm := map[string]string{"": "OptUnset", "always": "OptAlways", "afterCertExpiry": "OptAfterCertExpiry"}[c.Opt]
